@@ -295,8 +295,14 @@ impl StepChecker {
                 }
             }
         }
-        for (i, t) in w.sim.tasks.iter().enumerate() {
-            h.byte(u8::from(t.done) | u8::from(w.sim.is_runnable(i)) << 1);
+        {
+            // tasks in a canonical order (their indices depend on who happened to be spawned first)
+            let mut ts: Vec<(&str, u8)> = w.sim.tasks.iter().enumerate().map(|(i, t)| (t.name.as_str(), u8::from(t.done) | u8::from(w.sim.is_runnable(i)) << 1)).collect();
+            ts.sort_unstable();
+            for (n, b) in ts {
+                h.str(n);
+                h.byte(b);
+            }
         }
         self.fps.push(h.0);
     }
